@@ -148,6 +148,174 @@ Definition WorldOk (w : world) : Prop :=
   /\ NoDup (concat (map ps_params (all_sets w)))
   /\ matrix_ok (w_map w).
 
+(* ------------------------------------------------------------------ the specification interpreter
+   A world of VALUES: every parameter set is just the list of its parameters (name, fixed flag,
+   initial, bounds, value) in declaration order; no store, no object identity, no caches.  The mapper
+   adds the source flags and, per model, the list of local aliases.  Each operation is a total function
+   on such worlds; a rejected operation is a no-op that reports the exception. *)
+Record aworld := mkAW {
+  a_src : list bool; a_g : list param; a_names : list (list (option Z)); a_sets : list (list param) }.
+
+Definition a_get (a : aworld) (r : sref) : res (list param) :=
+  match r with
+  | GP => Ok (a_g a)
+  | St n => match nth_error (a_sets a) n with Some t => Ok t | None => Err IndexError end
+  end.
+
+Definition a_put (a : aworld) (r : sref) (t : list param) : aworld :=
+  match r with
+  | GP => mkAW (a_src a) t (a_names a) (a_sets a)
+  | St n => mkAW (a_src a) (a_g a) (a_names a) (set_nth (a_sets a) n t)
+  end.
+
+Definition has_name (t : list param) (n : Z) : bool := existsb (fun p => p_name p =? n) t.
+
+(* add_param: a name can be declared once *)
+Definition s_add (t : list param) (p : param) (front : bool) : res (list param) :=
+  if has_name t (p_name p) then Err KeyError else Ok (if front then p :: t else t ++ [p]).
+
+(* make_params_fixed: every requested parameter that is present must be floating; then each of them is fixed *)
+Definition fix_one (req : fixreq) (p : param) : param :=
+  match assoc req (p_name p) with Some i => make_fixed p i | None => p end.
+
+Definition s_fix (t : list param) (req : fixreq) : res (list param) :=
+  if existsb (fun p => is_some (assoc req (p_name p)) && p_isfixed p) t then Err ValueError
+  else Ok (map (fix_one req) t).
+
+(* make_params_floating: every requested parameter that is present must be fixed and its new settings
+   (given or inherited initial / bounds) must be valid; then each of them is set floating *)
+Definition float_one (req : floatreq) (p : param) : param :=
+  match assoc req (p_name p) with
+  | Some e => let '(i, lo, hi) := parse_fentry e in
+              match make_floating p i lo hi with Ok p' => p' | Err _ => p end
+  | None => p
+  end.
+
+Definition float_row_ok (req : floatreq) (p : param) : bool :=
+  match assoc req (p_name p) with
+  | None => true
+  | Some e => p_isfixed p && is_ok (floating_settings p (fst (fst (parse_fentry e))) (snd (fst (parse_fentry e)))
+                                                      (snd (parse_fentry e)))
+  end.
+
+Definition s_float (t : list param) (req : floatreq) : res (list param) :=
+  if forallb (float_row_ok req) t then Ok (map (float_one req) t) else Err ValueError.
+
+(* union: the parameters of the first set, then those of the others whose name is new (copies: values) *)
+Fixpoint add_new (acc qs : list param) : list param :=
+  match qs with
+  | [] => acc
+  | q :: r => if mem (p_name q) (map p_name acc) then add_new acc r else add_new (acc ++ [q]) r
+  end.
+
+Definition s_union (ts : list (list param)) : res (list param) :=
+  match ts with [] => Err ValueError | t :: r => Ok (fold_left add_new r t) end.
+
+(* params[k].value = v *)
+Definition s_setv (t : list param) (k v : Z) : res (list param) :=
+  do p <- py_get t k; do p' <- set_value p v; py_set t k p'.
+
+(* map_param: the new alias matrix (argument checks, duplicate check, np.where, hstack) *)
+Definition map_rows (n : nat) (rows : list (list (option Z))) (pname : Z) (models : option (list Z)) (al : aliases)
+  : res (list (list (option Z))) :=
+  let names := match al with
+               | ANone => repeat pname n
+               | AStr a => repeat a n
+               | ASeq ls => ls
+               end in
+  let applied := match models with None => arange n | Some ms => ms end in
+  if Nat.eqb (length applied) 0 then Err ValueError else
+  let mask := map (fun midx => mem midx applied) (arange n) in
+  do _ <- dup_check rows names (mask_select (arange n) mask);
+  do entry <- where_entry mask names;
+  if Nat.eqb (length rows) (length entry)
+  then Ok (map (fun re : list (option Z) * option Z => fst re ++ [snd re]) (combine rows entry))
+  else Err ValueError.
+
+Definition s_step (a : aworld) (o : op) : aworld * option err :=
+  match o with
+  | ONewSet => (mkAW (a_src a) (a_g a) (a_names a) (a_sets a ++ [[]]), None)
+  | OAdd n front d =>
+      match nth_error (a_sets a) n with
+      | None => (a, Some IndexError)
+      | Some t =>
+          match param_new d with
+          | Err e => (a, Some e)
+          | Ok p => match s_add t p front with
+                    | Err e => (a, Some e)
+                    | Ok t' => (a_put a (St n) t', None)
+                    end
+          end
+      end
+  | OMap d models al =>
+      match param_new d with
+      | Err e => (a, Some e)
+      | Ok p =>
+          match map_rows (length (a_src a)) (a_names a) (p_name p) models al with
+          | Err e => (a, Some e)
+          | Ok rows => match s_add (a_g a) p false with
+                       | Err e => (a, Some e)
+                       | Ok g => (mkAW (a_src a) g rows (a_sets a), None)
+                       end
+          end
+      end
+  | OFix r req =>
+      match a_get a r with
+      | Err e => (a, Some e)
+      | Ok t => match s_fix t req with Err e => (a, Some e) | Ok t' => (a_put a r t', None) end
+      end
+  | OFloat r req =>
+      match a_get a r with
+      | Err e => (a, Some e)
+      | Ok t => match s_float t req with Err e => (a, Some e) | Ok t' => (a_put a r t', None) end
+      end
+  | OUnion rs =>
+      match mapM (a_get a) rs with
+      | Err e => (a, Some e)
+      | Ok ts => match s_union ts with
+                 | Err e => (a, Some e)
+                 | Ok t => (mkAW (a_src a) (a_g a) (a_names a) (a_sets a ++ [t]), None)
+                 end
+      end
+  | OCopy r =>
+      match a_get a r with
+      | Err e => (a, Some e)
+      | Ok t => (mkAW (a_src a) (a_g a) (a_names a) (a_sets a ++ [t]), None)
+      end
+  | OSetValue r k v =>
+      match a_get a r with
+      | Err e => (a, Some e)
+      | Ok t => match s_setv t k v with Err e => (a, Some e) | Ok t' => (a_put a r t', None) end
+      end
+  end.
+
+Definition s_run (a : aworld) (ops : list op) : aworld := fold_left (fun a o => fst (s_step a o)) ops a.
+Fixpoint s_trace (a : aworld) (ops : list op) : list (aworld * option err) :=
+  match ops with
+  | [] => []
+  | o :: r => let ae := s_step a o in ae :: s_trace (fst ae) r
+  end.
+Definition s_init (src : list bool) : aworld := mkAW src [] (map (fun _ => []) src) [].
+
+(* the abstraction: what a world of objects, caches and locations stands for *)
+Definition abs_set (st : store) (s : pset) : list param :=
+  flat_map (fun l => match nth_error st l with Some p => [p] | None => [] end) (ps_params s).
+Definition abs (w : world) : aworld :=
+  mkAW (mp_src (w_map w)) (abs_set (w_store w) (mp_gps (w_map w))) (mp_names (w_map w))
+       (map (abs_set (w_store w)) (w_sets w)).
+
+(* a given setting is used, a missing one is inherited *)
+Definition opt_or {A} (a b : option A) : option A := match a with Some x => Some x | None => b end.
+
+(* the model indices create_src_params_recarray makes rows for: all sources / the given int32 array /
+   the requested source objects among the sources, in model order *)
+Definition sel_idxs (m : mapper) (sources : option (list Z + list Z)) : list Z :=
+  match sources with
+  | None => s_positions 0 (mp_src m)
+  | Some (inl arr) => arr
+  | Some (inr srcs) => filter (fun smidx => mem smidx srcs) (s_positions 0 (mp_src m))
+  end.
+
 (* a concrete history used by the non-vacuity examples: non-source model first; fixed parameter declared
    ahead of floating ones; aliases; fix, float, union, copy; three rejected requests *)
 Definition ex_ops : list op :=
